@@ -55,6 +55,9 @@ pub struct DiskInner {
     /// faults keyed by I/O call index (create/append/sync calls are counted; reads are not)
     pub plan: BTreeMap<u64, WalFault>,
     pub fired: Vec<(u64, WalFault)>,
+    /// fail the n-th open_read from now (0 = the next one) once with a transient I/O error
+    pub fail_open_read_in: Option<u64>,
+    pub read_errors_fired: u64,
     pub events: Vec<IoEvent>,
     /// (global seq at which this durable image became current, image)
     pub images: Vec<(u64, Image)>,
@@ -191,7 +194,11 @@ impl WalStore for SimWalStore {
         Ok(SimWalWriter { name: name.to_string(), store: self.clone(), size: 0 })
     }
     fn open_read(&self, name: &str) -> Result<Self::Reader, WalError> {
-        let d = self.inner.lock().unwrap();
+        let mut d = self.inner.lock().unwrap();
+        if let Some(n) = d.fail_open_read_in {
+            if n == 0 { d.fail_open_read_in = None; d.read_errors_fired += 1; return Err(WalError::Io(std::io::Error::new(std::io::ErrorKind::Other, format!("injected read error on {}", name)))); }
+            d.fail_open_read_in = Some(n - 1);
+        }
         d.files.get(name).map(|f| SimWalReader { data: f.data.clone() }).ok_or_else(|| WalError::NotFound(name.to_string()))
     }
     fn list(&self) -> Result<Vec<String>, WalError> {
